@@ -1,5 +1,79 @@
-(* Props/C36.v — property theorems only. *)
-From Verif Require Import Base.Str Shfmt.Modes Shfmt.Patch Proofs.PatchProofs.
+(* Props/C36.v — property theorems only.  The formatter [fmt] (parse + simplify + print with the options in
+   force), fileutil.Shebang [sb] and langFromFilename [lff] are universally quantified. *)
+From Verif Require Import Base.Str Shfmt.Modes Shfmt.Patch Proofs.ModesProofs Proofs.PatchProofs.
+
+(* shfmt -l (no -w) lists exactly the files whose formatted output differs from their contents *)
+Theorem C36_list_iff_differs : forall fmt sb lff fl flagl fs, listing fl = true -> f_write fl = false ->
+  forall p, listed (fst (run_files fmt sb lff fl flagl fs)) p <->
+            exists f, In f fs /\ fi_path f = p /\ differs fmt sb lff flagl f.
+Proof. exact listed_iff_differs. Qed.
+Print Assumptions C36_list_iff_differs.
+
+(* ... and exits non-zero exactly when it lists any, or a file could not be parsed (then main prints the error) *)
+Theorem C36_exit_iff_listed : forall fmt sb lff fl flagl fs, listing fl = true -> f_write fl = false ->
+  (snd (run_files fmt sb lff fl flagl fs) = true <->
+   (exists p, listed (fst (run_files fmt sb lff fl flagl fs)) p) \/ (exists f, In f fs /\ errors fmt sb lff flagl f)).
+Proof. exact exit_iff. Qed.
+Print Assumptions C36_exit_iff_listed.
+
+(* shfmt -d prints a diff exactly for those files; with -l as well the two sets coincide *)
+Theorem C36_diff_iff_listed : forall fmt sb lff fl flagl fs, f_diff fl = true -> f_write fl = false ->
+  (forall p, diffed (fst (run_files fmt sb lff fl flagl fs)) p <->
+             exists f, In f fs /\ fi_path f = p /\ differs fmt sb lff flagl f) /\
+  (listing fl = true -> forall p, diffed (fst (run_files fmt sb lff fl flagl fs)) p <->
+                                  listed (fst (run_files fmt sb lff fl flagl fs)) p).
+Proof.
+  exact (fun fmt sb lff fl flagl fs Hd Hw =>
+           conj (diffed_iff_differs fmt sb lff fl flagl fs Hd Hw)
+                (fun Hl => diffed_iff_listed fmt sb lff fl flagl fs Hl Hd Hw)).
+Qed.
+Print Assumptions C36_diff_iff_listed.
+
+(* the diff that is printed is the one from the file's contents to its formatted output *)
+Theorem C36_diff_is_src_to_formatted : forall fmt sb lff fl flagl fs p s r, f_diff fl = true -> f_write fl = false ->
+  In (EvDiff p s r) (fst (run_files fmt sb lff fl flagl fs)) ->
+  exists f, In f fs /\ fi_path f = p /\ fi_src f = s /\ fmt (file_lang sb lff flagl f) s = Ok r.
+Proof. exact diff_is_src_to_formatted. Qed.
+Print Assumptions C36_diff_is_src_to_formatted.
+
+(* after shfmt -w, shfmt -l lists nothing -- GIVEN that the formatter is idempotent (this hypothesis is
+   property C02) and that the formatted bytes are detected as the same language as the source.  Both hypotheses
+   are necessary: known findings c02_nonidempotent_input and language_redetected_after_format are the two ways
+   the clause fails on the real binary. *)
+Theorem C36_write_then_list_empty : forall fmt sb lff flw fll flagl fs,
+  f_write flw = true -> listing fll = true -> f_write fll = false ->
+  (forall l s r, fmt l s = Ok r -> fmt l r = Ok r) ->
+  (forall f r, In f fs -> skipped sb f = false -> fmt (file_lang sb lff flagl f) (fi_src f) = Ok r ->
+     let f' := mkFile (fi_path f) r (fi_check_shebang f) (fi_isreg f) in
+     skipped sb f' = false -> file_lang sb lff flagl f' = file_lang sb lff flagl f) ->
+  NoDup (map fi_path fs) -> (forall f, In f fs -> fi_isreg f = true) ->
+  forall p, ~ listed (fst (run_files fmt sb lff fll flagl
+                             (map (after_write (fst (run_files fmt sb lff flw flagl fs))) fs))) p.
+Proof. exact write_then_list_empty. Qed.
+Print Assumptions C36_write_then_list_empty.
+
+(* formatting through stdin (--filename) gives the same events, hence the same bytes, as formatting the file,
+   when the same language is detected; it is when -ln is given, when the file name decides, or when the shebang
+   found in the whole source is the one found in its first 32 bytes (known finding shebang_cut_at_32_bytes is
+   exactly the failure of that last condition) *)
+Theorem C36_stdin_same : forall fmt sb lff fl flagl f, f_write fl = false -> skipped sb f = false ->
+  (flagl <> None \/ lff (fi_path f) <> None \/ sb (fi_src f) = sb (head32 (fi_src f))) ->
+  format_stdin fmt sb lff fl flagl (fi_path f) (fi_src f) = format_path fmt sb lff fl flagl f.
+Proof.
+  exact (fun fmt sb lff fl flagl f Hw Hs H =>
+           stdin_same fmt sb lff fl flagl f Hw Hs (detect_same sb lff flagl (fi_path f) (fi_src f) H)).
+Qed.
+Print Assumptions C36_stdin_same.
+
+(* non-vacuity of the mode theorems: a concrete idempotent formatter, one differing, one formatted, one erroneous
+   file: -l lists the first and reports the third; after -w, -l lists nothing (and still reports the third) *)
+Example C36_modes_nonvacuous :
+  run_files ex_fmt ex_shebang ex_lff (mkFlags LNl false false) None ex_files
+    = ([EvList [97] false; EvErr [99]], true)%N /\
+  run_files ex_fmt ex_shebang ex_lff (mkFlags LNl false false) None
+    (map (after_write (fst (run_files ex_fmt ex_shebang ex_lff (mkFlags LOff true false) None ex_files))) ex_files)
+    = ([EvErr [99]], true)%N.
+Proof. exact ex_modes_run. Qed.
 
 (* applying a well-formed unified diff of a (hunks hs) that describes b yields b *)
 Theorem C36_patch_applier_correct : forall a hs b, describes 0 a hs b -> apply_patch a hs = Some b.
